@@ -436,3 +436,22 @@ def check_wait_helper(ck, prog, helper, rule):
     # the short-circuit: load != expect -> return
     loads = [bb for bb, t in ctx.cfg.calls(lambda t: (t.get("callee") or "").endswith("::load"))]
     ck.ob(rule, "helper-checks-before-wait", len(loads) >= 1, fn=ctx.path, detail="helper no longer reads the word before sleeping (information)")
+    # a wait that is repeated looks at the word again first: the kernel answers EAGAIN when the word no longer holds the expected value,
+    # so going straight back into the call with the same expectation spins for as long as the word stays changed (the lock may be free)
+    for bb, t in waits:
+        nxt = t.get("t")
+        if nxt is None or not ctx.cfg.in_cycle(bb):
+            continue
+        blind = bb in ctx.cfg.reachable_from(nxt, avoid=set(loads))
+        exits = []
+        for lb in loads:
+            for sb in ctx.cfg.reachable_from(ctx.cfg.term(lb).get("t")) if ctx.cfg.term(lb).get("t") is not None else ():
+                if ctx.cfg.term(sb)["k"] != "switch":
+                    continue
+                for e in ctx.cfg.succ[sb]:
+                    for f in ctx.edge_facts(e):
+                        if f[0] == "cmp" and f[1] == "Ne" and any(isinstance(strip_casts(x), tuple) and strip_casts(x)[0] == "call" and strip_casts(x)[3] == lb for x in (f[2], f[3])) and \
+                                bb not in ctx.cfg.reachable_from(e.dst):
+                            exits.append(e)
+        ck.ob(rule, "helper-rereads-before-waiting-again", not blind and bool(exits), fn=ctx.path, site=ctx.site(bb),
+              detail="every way back to futex_wait must pass the load of the word, and a changed word must end the helper")
